@@ -222,7 +222,7 @@ Definition cmd_ok (c : cmd) : Prop :=
   match c with
   | CAppInsert _ _ _ => False
   | CSetParentSrv _ cu pu => cu <> pu
-  | CSetParentCli c p => c <> p
+  | CSetParentCli c p _ _ => c <> p
   | _ => True
   end.
 (* in-flight messages: no link of an entity to itself *)
@@ -387,8 +387,8 @@ Theorem apply_comp_ignored_unregistered pr from e u t v :
 Proof.
   intros H. simpl. unfold apply_component_change. rewrite H. simpl. destruct from; reflexivity.
 Qed.
-Theorem set_parent_ignored_dead pr c p :
-  alive pr p = false \/ alive pr c = false -> apply_cmd pr (CSetParentCli c p) = pr.
+Theorem set_parent_ignored_dead pr c p cu pu :
+  alive pr p = false \/ alive pr c = false -> apply_cmd pr (CSetParentCli c p cu pu) = pr.
 Proof. intros [H|H]; simpl; rewrite H; [|rewrite orb_true_r]; reflexivity. Qed.
 Theorem set_parent_srv_ignored pr from cu pu :
   (t_u2e pr !! cu = None \/ t_u2e pr !! pu = None \/
@@ -1049,7 +1049,7 @@ Proof.
   - intros x v H. left. exists v. exact H.
   - intros x v H. left. exact H.
   - intros x v H. left. exact H.
-  - intros x y H. left. exact H.
+  - intros x y xu yu H. left. exact H.
 Qed.
 
 Lemma spawned_entity_blank now marked comps :
@@ -1191,7 +1191,7 @@ Proof.
   - intros e u H. simpl in H. rewrite lookup_empty in H. discriminate.
   - intros e u H. exfalso. exact (Hq _ H).
   - intros e u H. exfalso. exact (Hq _ H).
-  - intros c q H. exfalso. exact (Hq _ H).
+  - intros c q cu qu H. exfalso. exact (Hq _ H).
   - simpl. unfold SCRIPT_LIMIT. lia.
 Qed.
 
